@@ -157,6 +157,7 @@ func (h *History) encodeAck(c *conn, t byte, pid, rc int, short bool) []byte {
 	if c.version == 5 && !(short && rc == 0) {
 		p.HasReason = true
 		p.ReasonCode = byte(rc)
+		p.HasProps = !short
 	}
 	return refcodec.Encode(p)
 }
@@ -258,11 +259,32 @@ func (h *History) Step(o Op) {
 			fail("skip: connection name in use")
 			return
 		}
+		// A live connection with the same client id will be taken over. The old handler's teardown and
+		// the new handler's attach run concurrently in the broker; to record the same interleaving in
+		// every run the new handler is held at "attach.inherited" (the predecessor's connection is
+		// closed by then) until the old handler has finished. Other orders: Attach family.
+		var olds []*conn
+		if o.Until == "" && o.Kind != "free" {
+			for _, n := range h.order {
+				oc := h.conns[n]
+				oc.mu.Lock()
+				live := !oc.done && !oc.dropped
+				oc.mu.Unlock()
+				if live && oc.id == o.ID && o.ID != "" {
+					olds = append(olds, oc)
+				}
+			}
+		}
 		c = h.newConn(o.K, o.V, o.ID)
 		e.C, e.V = o.ID, o.V
 		if o.Until != "" {
 			c.gmu.Lock()
 			c.armed[o.Until] = true
+			c.gmu.Unlock()
+		}
+		if len(olds) > 0 {
+			c.gmu.Lock()
+			c.armed["attach.inherited"] = true
 			c.gmu.Unlock()
 		}
 		b := h.encodeConnect(o)
@@ -273,6 +295,19 @@ func (h *History) Step(o Op) {
 			fail("write: %v", err)
 		}
 		r := c.await(true, 5*time.Second)
+		if len(olds) > 0 && r == "gate:attach.inherited" {
+			for _, oc := range olds {
+				if oc.theirs.isClosed() {
+					select {
+					case <-oc.doneCh:
+					case <-time.After(3 * time.Second):
+						fail("stuck: predecessor handler did not end")
+					}
+				}
+			}
+			c.release <- struct{}{}
+			r = c.await(true, 5*time.Second)
+		}
 		if r == "timeout" {
 			fail("stuck: connect not completed")
 		}
@@ -380,6 +415,7 @@ func (h *History) Step(o Op) {
 			if !(o.Short && o.RC == 0 && o.SEI < 0) {
 				p.HasReason = true
 				p.ReasonCode = byte(o.RC)
+				p.HasProps = !o.Short // long form: reason code + (empty) property block; short form: reason code only
 			}
 			if o.SEI >= 0 {
 				p.HasProps = true
